@@ -105,6 +105,17 @@ class Check(PropertyCheck):
                                   complete_prob=self.rng.choice([0.1, 0.6]))
             o["spec"] = spec
             staged.append(o)
+        # 0b. one failing expression demanded twice by ONE job, the second demand bare and staged after the first was
+        #     caught (seeded change C12c/C01b: the duplicate of an already-rejected evaluation resolved to the error object)
+        for i in range(8 if self.tier == "quick" else 120):
+            X = (f"dx{i}", "raise", f"boom{i % 3}", (), None)
+            inner = X if i % 2 == 0 else (f"dw{i}", "list", 0, (X,), None)
+            spec = (f"dt{i}", "catchthen", 0, (inner,), None)
+            if i % 3 == 0:
+                spec = (f"du{i}", "list", 1, (spec,), None)
+            o = sched.run_program(lambda: vm.call(spec), {}, self.rng, complete_prob=self.rng.choice([0.1, 0.6]))
+            o["spec"] = spec
+            staged.append(o)
         # 1. propagation + failed chain on the runs of the correspondence
         for out in getattr(self, "runs", []) + staged:
             self.evaluations += 1
